@@ -390,9 +390,11 @@ impl LicenseParagraph {
 
     /// Name of the license
     pub fn name(&self) -> Option<String> {
-        self.0
-            .get("License")
-            .and_then(|x| x.split_once('\n').map(|(name, _)| name.to_string()))
+        // the first line of the field; a licence paragraph without text still has its name
+        self.0.get("License").map(|x| match x.split_once('\n') {
+            Some((name, _)) => name.to_string(),
+            None => x,
+        })
     }
 
     /// Text of the license
